@@ -48,7 +48,7 @@ BASE_SPEC = [
 ]
 
 VARIANTS = ('base', 'passport_cascade', 'group_cascade', 'passport_optional', 'car_optional', 'car_nocascade',
-            'group_owner', 'profile_pk')
+            'group_owner', 'profile_pk', 'cascade_mix')
 
 
 def spec_variant(name):
@@ -68,6 +68,15 @@ def spec_variant(name):
     elif name == 'group_cascade':
         attrs, i = attr('Group', 'members')
         attrs[i][2]['cascade_delete'] = True
+    elif name == 'cascade_mix':
+        # a cascade that runs through several levels (group -> members -> passport) and can be refused late
+        # (a member that owns a car): everything the cascade already deleted has to come back
+        attrs, i = attr('Group', 'members')
+        attrs[i][2]['cascade_delete'] = True
+        attrs, i = attr('Person', 'passport')
+        attrs[i][2]['cascade_delete'] = True
+        attrs, i = attr('Person', 'cars')
+        attrs[i][2]['cascade_delete'] = False
     elif name == 'passport_optional':
         attrs, i = attr('Passport', 'person')
         attrs[i] = ('person', 'opt', attrs[i][2])
